@@ -44,23 +44,26 @@ class Gen:
             for j in range(nouts):
                 o = ("gen/o%d_%d" if r.random() < 0.3 else "o%d_%d") % (i, j)
                 self.absent(o); outs.append(o)
+            if r.random() < 0.12:       # a command whose only output is virtual: its value is the same on every run
+                outs = ["<v%d>" % i]; self.nodes[outs[0]] = node("virtual", "")
             reads = []
             if self.headers and r.random() < (0.8 if f == "C11" else 0.35):
                 reads = r.sample(self.headers, r.randint(1, min(2, len(self.headers))))
             failif = ""
             if r.random() < (0.6 if f == "C10" else 0.12): failif = r.choice(self.markers)
             c = cmd(ins=ins, outs=outs, tag=name, reads=reads, failif=failif, failpt=r.choice(["before", "after"]),
-                    ami=r.random() < 0.2, aood=r.random() < 0.05,
+                    ami=r.random() < 0.2, aood=r.random() < 0.05, keep=r.random() < (0.45 if f in ("C11", "C09") else 0.2),
                     depstyle=("depinfo" if r.random() < (0.5 if f == "C11" else 0.2) else "makefile"),
                     depsok=not (f == "C11" and r.random() < 0.12),
                     env=[["K", "v"]] if r.random() < 0.2 else [],
                     spell=dict(args="scalar" if r.random() < 0.3 else "list", deps="list" if r.random() < 0.3 else "scalar"),
                     signature="S0" if (f == "C09" and r.random() < 0.3) else "",
                     extra=["EK", "ev"] if (f == "C09" and r.random() < 0.3) else [])
+            c["_failhow"] = r.choice(["exit 1", "exit 1", "exit 2", "exit 255", "kill -TERM $$", "kill -USR1 $$", "kill -ABRT $$", "kill -HUP $$"])
             if c["_depstyle"] == "makefile" and any(":" in x for x in reads): c["_depstyle"] = c["_depfmt"] = "depinfo"   # makefile syntax cannot express ':'
             cmds[name] = c; order.append(name); outs_avail += outs
         targets = {}
-        finals = [o for o in outs_avail]
+        finals = [o for o in outs_avail if self.nodes[o]["kind"] == "file"] or [outs_avail[-1]]
         tn = r.sample(finals, r.randint(1, min(2, len(finals))))
         if r.random() < 0.35:
             self.nodes["<all>"] = node("virtual", "")
@@ -68,7 +71,7 @@ class Gen:
         if r.random() < 0.2:
             self.absent("mk"); cmds["mkd"] = cmd(tool="mkdir", outs=["mk"]); order.append("mkd"); tn = tn + ["mk"]
         if r.random() < 0.2:
-            self.absent("lnk"); tgt = r.choice(finals + srcs)
+            self.absent("lnk"); tgt = r.choice([x for x in finals + srcs if self.nodes[x]["kind"] == "file"])
             cmds["ln"] = cmd(tool="symlink", ins=[tgt] if r.random() < 0.7 else [], outs=["lnk"], tag=self.nodes[tgt]["path"]); order.append("ln"); tn = tn + ["lnk"]
         targets["t"] = tn
         if r.random() < 0.4: targets["u"] = [r.choice(finals)]
@@ -77,7 +80,7 @@ class Gen:
     def add_tree(self, desc):
         """C12: a directory (or directory-structure) input of a counting command"""
         r = self.rng
-        root = "d"; kind = "dirstruct" if r.random() < 0.35 else "dir"
+        root = "d"; kind = "dirstruct" if r.random() < 0.45 else "dir"
         filt = r.choice([[], [], [".*"], ["*.tmp"], [".*", "*.tmp"]])
         name = root + "/"
         nd = node(kind, root, filt); nd["spell"] = r.choice(["slash", "isdir", "type"]) if kind == "dir" else r.choice(["type", "isds"])
@@ -89,6 +92,7 @@ class Gen:
         for p in ["d", "d/s", "d/s/t", "d/e"]: self.fs0.setdefault(p, dict(t="dir", c=""))
         self.fs0["d"]["t"] = "dir"
         self.trees.append((root, layout, filt))
+        self.live = {p: e["t"] for p, e in self.fs0.items() if p.startswith("d/") and e["t"] != "none"}
         self.absent("od")
         desc["cmds"]["cd"] = cmd(ins=[name] + ([r.choice(self.sources)] if r.random() < 0.4 else []), outs=["od"], tag="cd")
         desc["order"].append("cd")
@@ -150,7 +154,7 @@ class Gen:
         elif k == "flag":
             f = r.choice(["ami", "aood"]); c[f] = not c[f]
         elif k == "signature":
-            c["_signature"] = "sig%d" % r.randint(0, 2); c["tag"] = c["tag"] + "s"
+            c["_signature"] = (c["_signature"] or "sig") + "%d" % r.randint(0, 2); c["tag"] = c["tag"] + "s"     # always a NEW explicit signature with the new body
         elif k == "depstyle":      # the declared style alone (the body keeps writing the format it wrote before)
             if c["reads"]: c["_depstyle"] = "depinfo" if c["_depstyle"] == "makefile" else "makefile"
         elif k == "argenv":        # move the two trailing arguments across the args|env boundary
@@ -202,10 +206,24 @@ class Gen:
                 steps.append(("frontend", copy.deepcopy(desc), db, serial))
             elif op == "tree":
                 root, layout, filt = self.trees[0]
-                p = r.choice(layout + ["d/s", "d/e", "d/new1", "d/s/new2"])
-                self.fs0.setdefault(p, dict(t="none", c=""))
-                steps.append(r.choice([("write", p, r.choice("01")), ("rm", p), ("touch", p), ("mkdir", p), ("rename", p, r.choice(layout + ["d/moved"]))]))
-                if steps[-1][0] == "rename": self.fs0.setdefault(steps[-1][2], dict(t="none", c=""))
+                live = self.live
+                cand = layout + ["d/s", "d/e", "d/new1", "d/s/new2", "d/moved", "d/s/moved2"]
+                files = sorted(p for p in live if live[p] == "file")
+                kind = r.choices(["write", "rm", "touch", "mkdir", "rename", "retype"], weights=[3, 2, 1, 1, 3, 1])[0]
+                if kind == "rename" and files:
+                    a = r.choice(files); b = r.choice([c for c in cand if c not in live] or ["d/moved"])
+                    steps.append(("rename", a, b)); self.fs0.setdefault(b, dict(t="none", c="")); live[b] = live.pop(a)
+                elif kind == "retype" and files:        # a file becomes a directory of the same name
+                    a = r.choice(files); steps.append(("rm", a)); steps.append(("mkdir", a)); live[a] = "dir"
+                elif kind == "rm" and live:
+                    a = r.choice(sorted(live)); steps.append(("rm", a))
+                    for q in [q for q in live if q == a or q.startswith(a + "/")]: live.pop(q)
+                elif kind == "touch" and files: steps.append(("touch", r.choice(files)))
+                elif kind == "mkdir":
+                    a = r.choice([c for c in cand if c not in live] or ["d/e2"]); steps.append(("mkdir", a)); self.fs0.setdefault(a, dict(t="none", c="")); live[a] = "dir"
+                else:
+                    a = r.choice([c for c in cand if live.get(c, "file") == "file" and all(live.get(os.path.dirname(c), "dir") == "dir" for _ in [0])])
+                    steps.append(("write", a, r.choice("01"))); self.fs0.setdefault(a, dict(t="none", c="")); live[a] = "file"
             elif op == "stale":
                 desc = copy.deepcopy(desc); desc["cmds"]["rm"] = self.stale_cmd(); steps.append(("frontend", desc, db, serial))
                 steps.append(("build", "s" if r.random() < 0.7 else "t"))
